@@ -294,9 +294,9 @@ func (c *fnCtx) function(coqName string) string {
 	}
 	var b strings.Builder
 	fpos := fset.Position(fd.Pos())
-	fmt.Fprintf(&b, "(* %s/%s: %s", c.p.dir, shortFile(fpos.Filename), signature(fd))
+	fmt.Fprintf(&b, "(* %s: %s", coqComment(c.p.dir+"/"+shortFile(fpos.Filename)), signature(fd))
 	if len(c.outs) > 0 {
-		fmt.Fprintf(&b, "\n   result: the declared results, then the final value of %s", strings.Join(c.namesOf(c.outs), ", "))
+		fmt.Fprintf(&b, "\n   result: the declared results, then the final value of %s", coqComment(strings.Join(c.namesOf(c.outs), ", ")))
 	}
 	b.WriteString(" *)\n")
 	fmt.Fprintf(&b, "Definition %s", coqName)
@@ -322,8 +322,7 @@ func signature(fd *ast.FuncDecl) string {
 	}
 	b.WriteString(fd.Name.Name)
 	b.WriteString(strings.TrimPrefix(types.ExprString(fd.Type), "func"))
-	// keep Coq's comment brackets out of the comment text
-	return strings.ReplaceAll(strings.ReplaceAll(b.String(), "(*", "( *"), "*)", "* )")
+	return coqComment(b.String())
 }
 
 // ---------------------------------------------------------------------------
